@@ -56,3 +56,45 @@ def multistore_witness():
         return {"input": {"program": "Seq(s.store(Int(1)), s.store(Int(2)), Pop(s.load()), Int(7))", "version": 8, "scratch_slots": True},
                 "what": f"optimised program ends with {r_on.final_stack!r} below the result ({r_on.verdict}); unoptimised program ends clean", "teal": t_on}
     return None
+
+
+def o34_witness(kind):
+    """Deterministic witness of the recorded optimiser finding O3.4, attributed exactly (checks/e2e.repaired_optimizer).
+       kind 'stack'  : main routine - a value stays on the stack at exit (C03 / C05)
+       kind 'result' : a frame-pointer subroutine returns the leftover instead of its result (C01 / C02; version 9 default options)
+    Returns a replayable record when the tree shows the finding and the wrapper makes it disappear, else None."""
+    from vf.core import use_repo
+    use_repo()
+    import pyteal as pt
+    from spec import avm
+    from .e2e import repaired_optimizer
+
+    def build():
+        s = pt.ScratchVar(pt.TealType.uint64)
+        if kind == "stack":
+            return pt.Seq(s.store(pt.Int(1)), s.store(pt.Int(2)), pt.Pop(s.load()), pt.Log(pt.Itob(pt.Int(15))), pt.Approve()), 8, {"optimize": pt.OptimizeOptions(scratch_slots=True)}
+
+        @pt.Subroutine(pt.TealType.uint64)
+        def f(x):
+            return pt.Seq(s.store(pt.Int(1)), s.store(pt.Int(2)), pt.Pop(s.load()), x + pt.Int(5))
+        return pt.Seq(pt.Log(pt.Itob(f(pt.Int(10)))), pt.Approve()), 9, {}
+
+    def outcome(teal):
+        r = avm.run(teal, avm.Ctx())
+        return (r.verdict, [l.hex() for l in r.logs], len(r.final_stack))
+    want = ("approve", [(15).to_bytes(8, "big").hex()], 0)
+    try:
+        prog, version, kw = build()
+        got = outcome(pt.compileTeal(prog, pt.Mode.Application, version=version, **kw))
+        if got == want:
+            return None
+        prog, version, kw = build()
+        with repaired_optimizer() as ro:
+            teal2 = pt.compileTeal(prog, pt.Mode.Application, version=version, **kw)
+        if not ro.withheld or outcome(teal2) != want:
+            return None       # something else is wrong: not this finding (the sweeps / contracts report it)
+    except Exception:
+        return None
+    src = ("Seq(s.store(Int(1)), s.store(Int(2)), Pop(s.load()), Log(Itob(Int(15))), Approve()) with scratch_slots=True at v8" if kind == "stack" else
+           "f(x) = Seq(s.store(Int(1)), s.store(Int(2)), Pop(s.load()), x + Int(5)); Log(Itob(f(Int(10)))) at v9, default options")
+    return {"input": {"o34": kind, "program": src}, "what": f"{src}: (verdict, logs, values left on the stack) = {got}, expected {want}"}
